@@ -45,7 +45,12 @@ for n in $(seq "$FIRST" "$LAST"); do
   if ! (cd "$V" && ./build.sh) 2>/dev/null; then
     verdict="no-compile"
   else
-    for prop in $(order_for "$file"); do
+    props=$(order_for "$file")
+    if [ "${OWNER_ONLY:-0}" = "1" ]; then
+      # sensitivity matrix mode: only the check of the property the change was written against
+      props=$(echo "$meta" | python3 -c "import sys,json; print(json.load(sys.stdin).get('owner',''))")
+    fi
+    for prop in $props; do
       out=$(cd "$V" && timeout 900 "$V/target/release/simcheck" run --property "$prop" --tier quick 2>&1); rc=$?
       if [ $rc -eq 1 ]; then verdict="caught"; by="$prop"; sig=$(echo "$out" | grep -m1 "^violation: C" | cut -c12-170 | tr -d '"\\'); break; fi
       if [ $rc -ne 0 ]; then verdict="harness-error"; by="$prop"; sig="rc=$rc $(echo "$out" | tail -1 | cut -c1-120 | tr -d '"\\')"; break; fi
